@@ -21,7 +21,7 @@ def main():
     for fam in fams:
         for impl in ('c', 'py'):
             if quick:
-                totals, reps = ([0, 1, 7, 799, 800, 801, 1300], 2) if impl == 'c' else ([0, 1, 7, 801], 1)
+                totals, reps = ([0, 1, 7, 799, 800, 801, 1300], 2) if impl == 'c' else ([0, 1, 7, 801], 2)
             else:
                 totals, reps = ([0, 1, 2, 7, 100, 799, 800, 801, 802, 1600, 5000], 8) if impl == 'c' else ([0, 1, 7, 799, 801, 1600], 3)
             plan.append(dict(fam=fam, impl=impl, seed=ck.seed * 100 + len(plan), totals=totals, reps=reps))
